@@ -29,15 +29,26 @@ class Rec:
         return f"<{self._clsname} {d}>"
 
 
-def load_sidecar(mod):
+def load_sidecar(mod, tolerant=False):
     from pyvc import api
+
+    import types
 
     path = os.path.join(VERIF, "contracts", mod + ".py")
     api.REGISTRY.clear()
-    spec = importlib.util.spec_from_file_location(f"contracts_{mod}", path)
-    m = importlib.util.module_from_spec(spec)
-    sys.modules[spec.name] = m
-    spec.loader.exec_module(m)
+    with open(path) as fh:
+        src = fh.read()
+    tree = ast.parse(src, filename=path)
+    # spec functions of the side-car compare floats tolerantly too; harness functions
+    # (decorated) are left exactly as written
+    for node in tree.body:
+        pass  # spec functions are called in either polarity: they compare exactly
+    ast.fix_missing_locations(tree)
+    m = types.ModuleType(f"contracts_{mod}")
+    m.__file__ = path
+    m.__dict__["__tcmp__"] = tcmp
+    sys.modules[m.__name__] = m
+    exec(compile(tree, path, "exec"), m.__dict__)
     cs = list(api.REGISTRY)
     api.REGISTRY.clear()
     return m, cs
@@ -89,11 +100,178 @@ def build(v, named):
     return v
 
 
+class NumSeq(list):
+    """List of numbers compared to the printed precision of the formats involved."""
+
+    def __eq__(self, other):
+        other = list(other)
+        if len(self) != len(other):
+            return False
+        return all(abs(float(a) - float(b)) <= max(1e-5 * abs(float(b)), 1.1e-6) for a, b in zip(self, other))
+
+    def __ne__(self, other):
+        return not self.__eq__(other)
+
+    def __add__(self, other):
+        return NumSeq(list(self) + list(other))
+
+    def __radd__(self, other):
+        return NumSeq(list(other) + list(self))
+
+    def __getitem__(self, i):
+        r = list.__getitem__(self, i)
+        return NumSeq(r) if isinstance(i, slice) else r
+
+    __hash__ = None
+
+
+class OutFile:
+    def __init__(self):
+        import io
+
+        self.buf = io.StringIO()
+
+    def write(self, s):
+        return self.buf.write(s)
+
+    def getvalue(self):
+        return self.buf.getvalue()
+
+
+def file_nums(f):
+    out = []
+    for tok in f.getvalue().split():
+        try:
+            out.append(float(tok))
+        except ValueError:
+            pass
+    return NumSeq(out)
+
+
+def file_text(f):
+    return f.getvalue()
+
+
+def seq(x):
+    return NumSeq(x)
+
+
 def build_native(v, named):
     kind = v["$native"]
     if kind == "seq":
         return [build(x, named) for x in v["items"]]
+    if kind == "outfile":
+        o = OutFile()
+        named[v["$id"]] = o
+        return o
     raise ValueError(kind)
+
+
+def _tol(a, b):
+    return 1e-9 * max(1.0, abs(a), abs(b))
+
+
+def tcmp(op, a, b, pol=1):
+    """Comparison used when contract text is evaluated natively on floats (pol: +1 lenient,
+    -1 tight, 0 exact); a bounded stand-in must not alarm on round-off."""
+    fa = isinstance(a, float) or isinstance(b, float)
+    if pol and fa and isinstance(a, (int, float)) and isinstance(b, (int, float)) and not isinstance(a, bool) \
+            and not isinstance(b, bool):
+        t = _tol(a, b) * pol
+        if op == "==":
+            return abs(a - b) <= t if pol > 0 else a == b
+        if op == "!=":
+            return a != b if pol > 0 else abs(a - b) > -t
+        if op == "<":
+            return a < b + t
+        if op == "<=":
+            return a <= b + t
+        if op == ">":
+            return a > b - t
+        if op == ">=":
+            return a >= b - t
+    if op == "==":
+        return a == b
+    if op == "!=":
+        return a != b
+    if op == "<":
+        return a < b
+    if op == "<=":
+        return a <= b
+    if op == ">":
+        return a > b
+    if op == ">=":
+        return a >= b
+    if op == "is":
+        return a is b
+    if op == "is not":
+        return a is not b
+    if op == "in":
+        return a in b
+    if op == "not in":
+        return a not in b
+    raise ValueError(op)
+
+
+_OPS = {ast.Eq: "==", ast.NotEq: "!=", ast.Lt: "<", ast.LtE: "<=", ast.Gt: ">", ast.GtE: ">=",
+        ast.Is: "is", ast.IsNot: "is not", ast.In: "in", ast.NotIn: "not in"}
+
+
+class TolerantCompare(ast.NodeTransformer):
+    """Polarity-aware: comparisons in positive positions are lenient (ties within rounding noise
+    hold), in negative positions (antecedent of implies, under `not`) they are tight, and where
+    the polarity is mixed (iff) they are exact — so round-off can only make a clause easier."""
+
+    def __init__(self):
+        self.pol = 1
+
+    def visit_Call(self, node):
+        if isinstance(node.func, ast.Name) and node.func.id == "implies" and len(node.args) == 2:
+            self.pol = -self.pol
+            a = self.visit(node.args[0])
+            self.pol = -self.pol
+            b = self.visit(node.args[1])
+            return ast.Call(func=node.func, args=[a, b], keywords=[])
+        if isinstance(node.func, ast.Name) and node.func.id == "iff":
+            saved = self.pol
+            self.pol = 0
+            args = [self.visit(x) for x in node.args]
+            self.pol = saved
+            return ast.Call(func=node.func, args=args, keywords=[])
+        self.generic_visit(node)
+        return node
+
+    def visit_UnaryOp(self, node):
+        if isinstance(node.op, ast.Not):
+            self.pol = -self.pol
+            operand = self.visit(node.operand)
+            self.pol = -self.pol
+            return ast.UnaryOp(op=node.op, operand=operand)
+        self.generic_visit(node)
+        return node
+
+    def visit_IfExp(self, node):
+        saved = self.pol
+        self.pol = 0
+        test = self.visit(node.test)
+        self.pol = saved
+        return ast.IfExp(test=test, body=self.visit(node.body), orelse=self.visit(node.orelse))
+
+    def visit_Compare(self, node):
+        self.generic_visit(node)
+        if len(node.ops) != 1:
+            parts = []
+            left = node.left
+            for op, right in zip(node.ops, node.comparators):
+                parts.append(self._one(left, op, right))
+                left = right
+            return ast.BoolOp(op=ast.And(), values=parts)
+        return self._one(node.left, node.ops[0], node.comparators[0])
+
+    def _one(self, left, op, right):
+        return ast.Call(func=ast.Name(id="__tcmp__", ctx=ast.Load()),
+                        args=[ast.Constant(value=_OPS[type(op)]), left, right, ast.Constant(value=self.pol)],
+                        keywords=[])
 
 
 class OldRewriter(ast.NodeTransformer):
@@ -103,34 +281,50 @@ class OldRewriter(ast.NodeTransformer):
             src = ast.unparse(node.args[0])
             return ast.Call(
                 func=ast.Name(id="__old_eval__", ctx=ast.Load()),
-                args=[ast.Constant(value=src)],
+                args=[ast.Constant(value=src),
+                      ast.Call(func=ast.Name(id="locals", ctx=ast.Load()), args=[], keywords=[])],
                 keywords=[],
             )
         return node
 
 
-def eval_clause(text, env, oldenv, glob):
+def eval_clause(text, env, oldenv, glob, tolerant=True):
     tree = ast.parse(text.strip(), mode="eval")
-    tree = ast.fix_missing_locations(OldRewriter().visit(tree))
+    tree = OldRewriter().visit(tree)
+    if tolerant:
+        tree = TolerantCompare().visit(tree)
+    tree = ast.fix_missing_locations(tree)
 
-    def old_eval(src):
+    def old_eval(src, bound=None):
         e2 = dict(glob)
+        for k, v in (bound or {}).items():
+            if k not in env:  # lambda-bound variables only
+                e2[k] = v
         e2.update(oldenv)
         e2["__old_eval__"] = old_eval
+        e2["__tcmp__"] = tcmp
         return eval(compile(ast.parse(src, mode="eval"), "<old>", "eval"), e2)
 
     g = dict(glob)
     g.update(env)
     g["__old_eval__"] = old_eval
+    g["__tcmp__"] = tcmp
     return eval(compile(tree, "<clause>", "eval"), g)
 
 
-def run(replay):
+_SC_CACHE = {}
+
+
+def run(replay, tolerant=False):
     from pyvc import api
 
-    mod, cs = load_sidecar(replay["sidecar"])
+    key = (replay["sidecar"], tolerant)
+    if key not in _SC_CACHE:
+        _SC_CACHE[key] = load_sidecar(replay["sidecar"], tolerant)
+    mod, cs = _SC_CACHE[key]
     c = next(x for x in cs if x.name == replay["contract"])
     glob = dict(api.NATIVE_HELPERS)
+    glob.update({"file_nums": file_nums, "file_text": file_text, "seq": seq})
     glob.update({k: v for k, v in vars(mod).items() if not k.startswith("__")})
     bind = getattr(mod, "BIND", {})
     for nm, key in bind.items():
@@ -148,11 +342,20 @@ def run(replay):
     out = {"contract": c.name, "requires_ok": True, "outcome": None, "failed": [], "errors": []}
     for text in c.requires:
         try:
-            if not eval_clause(text, env, env, glob):
+            if not eval_clause(text, env, env, glob, False):
                 out["requires_ok"] = False
                 out["errors"].append(f"requires false natively: {text}")
         except Exception as ex:
             out["errors"].append(f"requires raised {type(ex).__name__}: {ex}")
+    for kf in getattr(c, "known", []):
+        try:
+            if eval_clause(kf["when"], env, env, glob, False):
+                out["requires_ok"] = False
+                out["in_carve_out"] = kf.get("id")
+        except Exception as ex:
+            out["errors"].append(f"carve-out raised {type(ex).__name__}: {ex}")
+    if replay.get("mode") == "sample" and not out["requires_ok"]:
+        return out
     oldenv = copy.deepcopy(env)
     import logging
 
@@ -191,7 +394,7 @@ def run(replay):
                 out["failed"].append({"clause": f"undeclared {en} escapes", "kind": "exc"})
             else:
                 try:
-                    if not eval_clause(declared, oldenv, oldenv, glob):
+                    if not eval_clause(declared, oldenv, oldenv, glob, tolerant):
                         out["failed"].append({"clause": f"raises {en} only if {declared}", "kind": "exc"})
                 except Exception as ex2:
                     out["errors"].append(f"raises-clause raised {type(ex2).__name__}: {ex2}")
@@ -200,7 +403,7 @@ def run(replay):
             env2["result"] = result
             for i, text in enumerate(c.ensures):
                 try:
-                    ok = eval_clause(text, env2, oldenv, glob)
+                    ok = eval_clause(text, env2, oldenv, glob, tolerant)
                 except Exception as ex:
                     out["errors"].append(f"ensures#{i} raised {type(ex).__name__}: {ex}")
                     continue
@@ -215,7 +418,185 @@ def run(replay):
     return out
 
 
+# --------------------------------------------------------------------------- bounded stand-in: sampling
+INT_POOL = [0, 1, -1, 2, -2, 3, 5, 6, 7, 12, 31, 32, 33, 64, 65, 97, 100, 129, -7, -33, 1000, 99999, 100000]
+REAL_POOL = [0.0, 1.0, -1.0, 0.5, -0.5, 1.5, -1.5, 2.0, -2.0, 2.5, 3.0, -3.0, 0.1, -0.1, 0.25, 1e-3, -1e-3,
+             5.0, -5.0, 10.0, 100.0, -100.0, 0.999, -0.999, 4.3, 1234.5, -999.999]
+STR_POOL = ["", "A", "B", "CA", "N", "ALA", "HOH", "X1", "ATOM", "HETATM"]
+
+
+def sample(desc, rng, named, name):
+    from pyvc import api as T
+
+    if isinstance(desc, T._Scalar):
+        if desc.kind == "Int":
+            r = rng.random()
+            if r < 0.6:
+                return {"$int": rng.choice(INT_POOL)}
+            return {"$int": rng.randint(-50, 200)}
+        if desc.kind == "Real":
+            r = rng.random()
+            if r < 0.45:
+                v = rng.choice(REAL_POOL)
+            elif r < 0.8:
+                v = round(rng.uniform(-20, 20) * 8) / 8
+            else:
+                v = rng.uniform(-60, 60)
+            return {"$real": str(Fraction(v))}
+        if desc.kind == "Bool":
+            return rng.random() < 0.5
+        if desc.kind == "Str":
+            return rng.choice(STR_POOL)
+    if isinstance(desc, T.Const):
+        v = desc.value
+        if isinstance(v, float):
+            return {"$real": str(Fraction(v))}
+        return _to_json(v)
+    if isinstance(desc, T.Enum):
+        return _to_json(rng.choice(desc.values))
+    if isinstance(desc, T.Opt):
+        if rng.random() < 0.3:
+            return None
+        return sample(desc.inner, rng, named, name)
+    if isinstance(desc, T.OneOf):
+        return sample(rng.choice(desc.alts), rng, named, name)
+    if isinstance(desc, T.ListOf):
+        return [sample(desc.elem, rng, named, f"{name}[{i}]") for i in range(desc.n)]
+    if isinstance(desc, T.Items):
+        return [sample(e, rng, named, f"{name}[{i}]") for i, e in enumerate(desc.elems)]
+    if isinstance(desc, T.TupleOf):
+        return {"$tuple": [sample(e, rng, named, f"{name}[{i}]") for i, e in enumerate(desc.elems)]}
+    if isinstance(desc, T.DictOf):
+        out = []
+        for i, (kd, vd) in enumerate(desc.pairs):
+            k = sample(kd, rng, named, f"{name}.k{i}") if isinstance(kd, T.T) else _to_json(kd)
+            out.append([k, sample(vd, rng, named, f"{name}[{i}]")])
+        return {"$dict": out}
+    if isinstance(desc, T.Obj):
+        named.add(name)
+        return {"$obj": desc.cls, "$id": name,
+                "fields": {f: sample(fd, rng, named, f"{name}.{f}") for f, fd in desc.fields.items()}}
+    if isinstance(desc, T.Named):
+        inner = sample(desc.inner, rng, named, desc.name)
+        named.add(desc.name)
+        if isinstance(inner, dict) and "$obj" in inner:
+            return inner
+        return {"$named": desc.name, "value": inner}
+    if isinstance(desc, T.Ref):
+        return {"$ref": desc.name}
+    if isinstance(desc, T.SeqOf):
+        n = rng.choice([0, 1, 2, 3, 5, 6, 7, 11, 12, 13, 18, rng.randint(0, 40)])
+        return [sample(desc.elem, rng, named, f"{name}[{i}]") for i in range(n)]
+    if hasattr(desc, "sample"):
+        return desc.sample(rng, named, name)
+    raise ValueError(f"cannot sample {desc!r}")
+
+
+def _to_json(v):
+    if isinstance(v, float):
+        return {"$real": str(Fraction(v))}
+    if isinstance(v, tuple):
+        return {"$tuple": [_to_json(x) for x in v]}
+    if isinstance(v, list):
+        return [_to_json(x) for x in v]
+    if isinstance(v, dict):
+        return {"$dict": [[_to_json(k), _to_json(x)] for k, x in v.items()]}
+    return v
+
+
+def run_samples(sidecar, contract, n, seed):
+    """Bounded stand-in: the same contract text evaluated natively on n sampled inputs."""
+    import random
+
+    rng = random.Random(seed)
+    mod, cs = load_sidecar(sidecar, True)
+    _SC_CACHE[(sidecar, True)] = (mod, cs)
+    c = next(x for x in cs if x.name == contract)
+    tried = ok_pre = 0
+    failures = []
+    errors = []
+    distinct = set()
+    attempts = 0
+    while ok_pre < n and attempts < n * 60:
+        attempts += 1
+        named = set()
+        try:
+            inputs = {p: sample(d, rng, named, p) for p, d in c.params.items()}
+        except Exception as ex:
+            errors.append(f"sampler: {type(ex).__name__}: {ex}")
+            break
+        rep = {"sidecar": sidecar, "contract": contract, "inputs": inputs, "mode": "sample"}
+        try:
+            out = run(rep, tolerant=True)
+        except Exception as ex:
+            errors.append(f"{type(ex).__name__}: {ex}")
+            continue
+        tried += 1
+        if not out.get("requires_ok", True):
+            continue
+        ok_pre += 1
+        distinct.add(json.dumps(inputs, sort_keys=True, default=str)[:2000])
+        if out.get("failed"):
+            failures.append({"inputs": inputs, "failed": out["failed"], "outcome": out.get("outcome")})
+            if len(failures) >= 3:
+                break
+        for e in out.get("errors", []):
+            if len(errors) < 5:
+                errors.append(e)
+    return {"contract": contract, "sidecar": sidecar, "generated": tried, "satisfying_requires": ok_pre,
+            "distinct": len(distinct), "failures": failures, "errors": errors, "bound": f"{n} sampled inputs, seed {seed}"}
+
+
+def run_many(path):
+    """Run every input of a file produced by the solver-aided sampler (pyvc.engine.gen_inputs)."""
+    with open(path) as fh:
+        job = json.load(fh)
+    res = {"contract": job["contract"], "sidecar": job["sidecar"], "generated": len(job["inputs"]),
+           "satisfying_requires": 0, "distinct": 0, "failures": [], "errors": [], "bound": job.get("bound")}
+    distinct = set()
+    for inputs in job["inputs"]:
+        rep = {"sidecar": job["sidecar"], "contract": job["contract"], "inputs": inputs, "mode": "sample"}
+        try:
+            out = run(rep, tolerant=True)
+        except Exception as ex:
+            if len(res["errors"]) < 5:
+                res["errors"].append(f"{type(ex).__name__}: {ex}")
+            continue
+        if not out.get("requires_ok", True):
+            if len(res["errors"]) < 5 and not out.get("in_carve_out"):
+                res["errors"].append("requires false natively (float rounding of a model?): " + "; ".join(out["errors"])[:300])
+            continue
+        res["satisfying_requires"] += 1
+        distinct.add(json.dumps(inputs, sort_keys=True, default=str)[:4000])
+        if out.get("failed") and len(res["failures"]) < 3:
+            res["failures"].append({"inputs": inputs, "failed": out["failed"], "outcome": out.get("outcome"),
+                                    "exc_msg": out.get("exc_msg")})
+        for e in out.get("errors", []):
+            if len(res["errors"]) < 5:
+                res["errors"].append(e)
+    res["distinct"] = len(distinct)
+    return res
+
+
 def main():
+    if sys.argv[1] == "--run-many":
+        try:
+            out = run_many(sys.argv[2])
+        except Exception as ex:
+            out = {"failures": [], "generated": 0, "satisfying_requires": 0, "distinct": 0,
+                   "errors": [f"sampling harness crashed: {type(ex).__name__}: {ex}", traceback.format_exc()[-1500:]]}
+        print(json.dumps(out, default=str))
+        return
+    if sys.argv[1] == "--sample":
+        sidecar, contract, n, seed = sys.argv[2], sys.argv[3], int(sys.argv[4]), int(sys.argv[5])
+        try:
+            out = run_samples(sidecar, contract, n, seed)
+        except Exception as ex:
+            out = {"contract": contract, "sidecar": sidecar, "failures": [], "generated": 0,
+                   "satisfying_requires": 0, "distinct": 0,
+                   "errors": [f"sampling harness crashed: {type(ex).__name__}: {ex}", traceback.format_exc()[-1500:]]}
+        print(json.dumps(out, default=str))
+        return
     path = sys.argv[1]
     with open(path) as fh:
         replay = json.load(fh)
